@@ -187,6 +187,12 @@ class GaussianMerge(Compiler):
                     self.new_DAG = self.DAG.copy()
                     # Fix order of operations
                     unified_operations = self.organize_merge_ops([op] + merged_gaussian_ops)
+                    if all(get_op_name(merged_op) == "Dgate" for merged_op in unified_operations) and len(
+                        {merged_op.reg[0].ind for merged_op in unified_operations}
+                    ) == len(unified_operations):
+                        # displacements of different modes: merging them returns the same gates
+                        # (and would be reported as progress for ever)
+                        continue
                     gaussian_transform = GaussianUnitary().compile(unified_operations, registers)
                     if not gaussian_transform:
                         # the merged operations cancel each other: keep an explicit identity transformation
